@@ -15,6 +15,7 @@ import (
 	"os/exec"
 	"runtime"
 	"strings"
+	"sync"
 	"time"
 
 	"github.com/google/badwolf/bql/grammar"
@@ -326,6 +327,8 @@ func gen(seed int64, n, exhaust int) []tcase {
 func main() {
 	child := flag.Bool("child", false, "internal: run cases from -from on, printing results")
 	from := flag.Int("from", 0, "internal")
+	stride := flag.Int("stride", 1, "internal: this child runs cases from, from+stride, ...")
+	workers := flag.Int("workers", 8, "number of child processes run in parallel")
 	seed := flag.Int64("seed", 1, "PRNG seed")
 	n := flag.Int("n", 1000, "number of mutated/random cases")
 	exhaust := flag.Int("exhaust", 2, "exhaustive token-kind sequences up to this length")
@@ -336,7 +339,7 @@ func main() {
 	if *child {
 		w := bufio.NewWriter(os.Stdout)
 		enc := json.NewEncoder(w)
-		for i := *from; i < total; i++ {
+		for i := *from; i < total; i += *stride {
 			c, sk := cases[i/len(stores)], stores[i%len(stores)]
 			fmt.Fprintf(w, "START %d\n", i)
 			w.Flush()
@@ -346,43 +349,61 @@ func main() {
 		}
 		return
 	}
-	// parent: restart the child after every case that kills it
-	enc := json.NewEncoder(os.Stdout)
-	next := 0
-	for next < total {
-		cmd := exec.Command(os.Args[0], "-child", "-from", fmt.Sprint(next), "-seed", fmt.Sprint(*seed), "-n", fmt.Sprint(*n), "-exhaust", fmt.Sprint(*exhaust))
-		out, _ := cmd.StdoutPipe()
-		var errb strings.Builder
-		cmd.Stderr = &errb
-		if err := cmd.Start(); err != nil {
-			fmt.Fprintln(os.Stderr, err)
-			os.Exit(2)
-		}
-		sc := bufio.NewScanner(out)
-		sc.Buffer(make([]byte, 1<<20), 1<<24)
-		started, done := -1, -1
-		for sc.Scan() {
-			l := sc.Text()
-			if strings.HasPrefix(l, "START ") {
-				fmt.Sscanf(l, "START %d", &started)
-				continue
-			}
-			fmt.Println(l)
-			done = started
-		}
-		cmd.Wait()
-		if started > done { // the child died while running case `started`
-			c, sk := cases[started/len(stores)], stores[started%len(stores)]
-			msg := errb.String()
-			site := firstFrames(msg)
-			first := strings.SplitN(msg, "\n", 2)[0]
-			enc.Encode(result{started, c.Kind, sk, c.Text, "killed", first + " @ " + site, 0, gram.LexKinds(c.Text)})
-			next = started + 1
-		} else {
-			next = done + 1
-			if done < 0 {
-				next = total
-			}
-		}
+	// parent: W chains of child processes (worker w runs cases w, w+W, ...); a child that dies is restarted after the
+	// case that killed it
+	var mu sync.Mutex
+	var wg sync.WaitGroup
+	emit := func(line string) {
+		mu.Lock()
+		fmt.Println(line)
+		mu.Unlock()
 	}
+	W := *workers
+	if W < 1 {
+		W = 1
+	}
+	for w := 0; w < W; w++ {
+		wg.Add(1)
+		go func(w int) {
+			defer wg.Done()
+			next := w
+			for next < total {
+				cmd := exec.Command(os.Args[0], "-child", "-from", fmt.Sprint(next), "-stride", fmt.Sprint(W), "-seed", fmt.Sprint(*seed), "-n", fmt.Sprint(*n), "-exhaust", fmt.Sprint(*exhaust))
+				out, _ := cmd.StdoutPipe()
+				var errb strings.Builder
+				cmd.Stderr = &errb
+				if err := cmd.Start(); err != nil {
+					fmt.Fprintln(os.Stderr, err)
+					os.Exit(2)
+				}
+				sc := bufio.NewScanner(out)
+				sc.Buffer(make([]byte, 1<<20), 1<<24)
+				started, done := -1, -1
+				for sc.Scan() {
+					l := sc.Text()
+					if strings.HasPrefix(l, "START ") {
+						fmt.Sscanf(l, "START %d", &started)
+						continue
+					}
+					emit(l)
+					done = started
+				}
+				cmd.Wait()
+				if started > done { // the child died while running case `started`
+					c, sk := cases[started/len(stores)], stores[started%len(stores)]
+					msg := errb.String()
+					site := firstFrames(msg)
+					first := strings.SplitN(msg, "\n", 2)[0]
+					b, _ := json.Marshal(result{started, c.Kind, sk, c.Text, "killed", first + " @ " + site, 0, gram.LexKinds(c.Text)})
+					emit(string(b))
+					next = started + W
+				} else if done < 0 {
+					return
+				} else {
+					next = done + W
+				}
+			}
+		}(w)
+	}
+	wg.Wait()
 }
